@@ -387,8 +387,12 @@ def r5_lumped_once(ctx):
                           'the per-section loss factors are not a plain selection of the lumped losses while the start power of a section '
                           'is the end of the previous one: earlier losses would be applied again in every later section',
                           ast.unparse(bad)[:100] if bad is not None else '')
-        if isinstance(it, ast.Call) and isinstance(it.func, ast.Name) and it.func.id == 'range':
-            iv = lp.target.id if isinstance(lp.target, ast.Name) else None
+        if isinstance(it, ast.Call) and isinstance(it.func, ast.Name) and it.func.id in ('range', 'enumerate'):
+            # the step index: the variable of range(..), or the counter of enumerate(<steps>, start=..)
+            if it.func.id == 'range':
+                iv = lp.target.id if isinstance(lp.target, ast.Name) else None
+            else:
+                iv = lp.target.elts[0].id if isinstance(lp.target, ast.Tuple) and isinstance(lp.target.elts[0], ast.Name) else None
             uses = [x for x in ast.walk(lp) if isinstance(x, ast.Subscript) and isinstance(x.value, ast.Name) and x.value.id == LL]
             if uses:
                 n += 1
